@@ -3,7 +3,7 @@ how cases are generated.  See DESIGN.md section 4."""
 import random
 import gen
 from gen import B, rkey, rbytes, kstr, split_chunks
-from hh import hexbytes, QUICK_CONFIGS, all_configs
+from hh import hexbytes, QUICK_CONFIGS, MATRIX_CONFIGS, all_configs
 
 X86 = ["portable", "sse", "avx", "auto"]
 
@@ -297,16 +297,15 @@ def post_c10(bs, cases, reals, info):
 PROPS = {
     "C01": dict(gen=gen_c01, quick=["dev-std-base", "rel-std-base"],
                 thorough=["dev-std-base", "rel-std-base", "rel-nostd-base", "rel-std-native"], spec_oracle=True),
-    "C02": dict(gen=gen_c02, quick=QUICK_CONFIGS, thorough=all_configs(), cpus=["none", "sse41"]),
-    "C05": dict(gen=gen_c05, quick=["dev-std-base", "rel-nostd-avx2"], thorough=["dev-std-base", "rel-std-base", "rel-nostd-avx2", "dev-nostd-sse41"]),
-    "C06": dict(gen=gen_c06, quick=["dev-std-base", "rel-std-base"], thorough=["dev-std-base", "rel-std-base", "rel-nostd-sse41", "dev-std-native"]),
-    "C07": dict(gen=gen_c07, quick=["dev-std-base", "rel-nostd-base"], thorough=["dev-std-base", "rel-std-base", "rel-nostd-base", "dev-nostd-avx2", "rel-std-sse41noavx"]),
-    "C08": dict(gen=gen_c08, quick=["dev-std-base", "rel-std-base", "dev-nostd-avx2"],
-                thorough=["dev-std-base", "rel-std-base", "dev-nostd-avx2", "dev-nostd-sse41", "dev-std-native", "rel-nostd-base", "dev-nostd-base"]),
-    "C10": dict(gen=gen_c10, quick=QUICK_CONFIGS, thorough=all_configs(), cpus=["none", "sse41", "avx2"], post=post_c10),
-    "C11": dict(gen=gen_c11, quick=["dev-std-base", "rel-std-base"], thorough=["dev-std-base", "rel-std-base", "dev-nostd-sse41", "rel-nostd-avx2"]),
-    "C12": dict(gen=gen_c12, quick=["dev-std-base", "rel-std-base"], thorough=["dev-std-base", "rel-std-base", "rel-nostd-base", "dev-std-avx2"]),
-    "C13": dict(gen=gen_c13, quick=["dev-std-base", "rel-std-base"], thorough=["dev-std-base", "rel-std-base", "rel-nostd-sse41", "dev-nostd-base", "rel-std-avx2"]),
-    "C14": dict(gen=gen_c14, quick=["dev-std-base", "rel-std-base"], thorough=["dev-std-base", "rel-std-base", "rel-nostd-avx2"]),
-    "C15": dict(gen=gen_c15, quick=["dev-std-base", "rel-std-base"], thorough=["dev-std-base", "rel-std-base", "rel-nostd-base"]),
+    "C02": dict(gen=gen_c02, quick=MATRIX_CONFIGS, thorough=all_configs(), cpus=["none", "sse41"]),
+    "C05": dict(gen=gen_c05, quick=MATRIX_CONFIGS, thorough=all_configs()),
+    "C06": dict(gen=gen_c06, quick=MATRIX_CONFIGS, thorough=all_configs()),
+    "C07": dict(gen=gen_c07, quick=MATRIX_CONFIGS, thorough=all_configs()),
+    "C08": dict(gen=gen_c08, quick=MATRIX_CONFIGS, thorough=all_configs()),
+    "C10": dict(gen=gen_c10, quick=MATRIX_CONFIGS, thorough=all_configs(), cpus=["none", "sse41", "avx2"], post=post_c10),
+    "C11": dict(gen=gen_c11, quick=MATRIX_CONFIGS, thorough=all_configs()),
+    "C12": dict(gen=gen_c12, quick=MATRIX_CONFIGS, thorough=all_configs()),
+    "C13": dict(gen=gen_c13, quick=MATRIX_CONFIGS, thorough=all_configs()),
+    "C14": dict(gen=gen_c14, quick=MATRIX_CONFIGS, thorough=all_configs()),
+    "C15": dict(gen=gen_c15, quick=MATRIX_CONFIGS, thorough=all_configs()),
 }
